@@ -340,14 +340,15 @@ MUTANTS = [
     ('initiator-miu-forgets-nad', D, """            self.miu = (atr_res.lr-3 - int(self.did is not None)
                         - int(self.nad is not None))""", """            self.miu = (atr_res.lr-3 - int(self.did is not None))""", 'C19-R4'),
     ('miu-minus-2', D, "self.miu = atr_req.lr - 3 - int(atr_req.did > 0)", "self.miu = atr_req.lr - 2 - int(atr_req.did > 0)", 'C19-R4'),
-    ('frame-len-byte', D, """    def encode_frame(self, packet):
-        frame = packet.encode()
-        frame = struct.pack("B", len(frame) + 1) + frame
+    ('frame-len-byte', D, [("""        frame = struct.pack("B", len(frame) + 1) + frame
         if self.target.brty == '106A':
             frame = b'\\xF0' + frame
         return bytearray(frame)
 
     def decode_frame(self, frame):
+        if len(frame) < 2:
+            error = "NFC-DEP frame length byte must be from 3 to 255"
+            raise nfc.clf.TransmissionError(error)
         if self.target.brty == '106A' and frame.pop(0) != 0xF0:
             error = "first NFC-DEP frame byte must be F0h for 106A"
             raise nfc.clf.ProtocolError(error)
@@ -357,14 +358,15 @@ MUTANTS = [
         if len(frame) < 2:
             error = "NFC-DEP frame length byte must be from 3 to 255"
             raise nfc.clf.TransmissionError(error)
-        if frame[0] != 0xD4""", """    def encode_frame(self, packet):
-        frame = packet.encode()
-        frame = struct.pack("B", len(frame)) + frame
+        if frame[0] != 0xD4""", """        frame = struct.pack("B", len(frame)) + frame
         if self.target.brty == '106A':
             frame = b'\\xF0' + frame
         return bytearray(frame)
 
     def decode_frame(self, frame):
+        if len(frame) < 2:
+            error = "NFC-DEP frame length byte must be from 3 to 255"
+            raise nfc.clf.TransmissionError(error)
         if self.target.brty == '106A' and frame.pop(0) != 0xF0:
             error = "first NFC-DEP frame byte must be F0h for 106A"
             raise nfc.clf.ProtocolError(error)
@@ -374,5 +376,5 @@ MUTANTS = [
         if len(frame) < 2:
             error = "NFC-DEP frame length byte must be from 3 to 255"
             raise nfc.clf.TransmissionError(error)
-        if frame[0] != 0xD4""", 'C19-R4'),
+        if frame[0] != 0xD4""")], None, 'C19-R4'),
 ]
